@@ -1,8 +1,10 @@
 """C03 -- processor-level property; see proccheck.py / procgen.py / coq/Processor.v / coq/ProcMonitor.v."""
 import proccheck
+import statuscheck
 
 LEVEL = "proof"
 
 
 def run(chk, replay=None):
     proccheck.run(chk, "PropC03", {'lifecycle': 5, 'overlap': 4, 'inactivity': 2, 'mixed': 2, 'multi': 1}, 260, 4000, [301, 302, 303, 304, 305, 306], replay=replay)
+    statuscheck.run_stage(chk)
